@@ -19,7 +19,10 @@ import os, sqlite3, json, copy
 PYT = {'int': 'int', 'str': 'str', 'bool': 'bool', 'float': 'float'}
 
 DEFAULT_DIAGRAM = {'ppk': 'int', 'cpk': 'int', 'tpk': 'int', 'ref': 'required', 'unique': False,
-                   'inherit': False, 'o2o': False, 'lazy_set': False, 'extra': []}
+                   'inherit': False, 'o2o': False, 'lazy_set': False, 'extra': [], 'json': False}
+
+
+JSON_TYPES = ('json', 'intarray')
 
 
 class HarnessError(Exception):
@@ -79,8 +82,10 @@ def attr_meta(diagram):
     else:
         P.append(A('id', 'pk', 'int', auto=(d['ppk'] == 'auto')))
     P += [A('title', 'scalar', 'str', required=True), A('note', 'scalar', 'str'),
-          A('blob', 'scalar', 'str', lazy=True), A('rank', 'scalar', 'int'),
-          A('kids', 'coll', 'C', reverse='parent', lazy=bool(d['lazy_set']))]
+          A('blob', 'scalar', 'str', lazy=True), A('rank', 'scalar', 'int')]
+    if d['json']:
+        P.append(A('meta', 'scalar', 'json'))
+    P.append(A('kids', 'coll', 'C', reverse='parent', lazy=bool(d['lazy_set'])))
     C = []
     if d['cpk'] == 'composite':
         C += [A('a', 'pk', 'int'), A('b', 'pk', 'int')]
@@ -90,6 +95,8 @@ def attr_meta(diagram):
           A('bio', 'scalar', 'str', lazy=True), A('num', 'scalar', 'int')]
     if d['unique']:
         C.append(A('code', 'scalar', 'int', unique=True))
+    if d['json']:
+        C += [A('doc', 'scalar', 'json'), A('arr', 'scalar', 'intarray')]
     for i, (t, req, lazy) in enumerate(d['extra']):
         C.append(A('x%d' % i, 'scalar', t, required=bool(req), lazy=bool(lazy)))
     C.append(A('parent', 'ref', 'P', required=(d['ref'] == 'required'), reverse='kids'))
@@ -144,6 +151,7 @@ def entity_source(diagram):
                 opts += ', lazy=True'
             if a['unique']:
                 opts += ', unique=True'
+            t = {'json': 'Json', 'intarray': 'IntArray'}.get(t, t)
             return '%s = %s(%s%s)' % (n, 'Required' if a['required'] else 'Optional', t, opts)
         if k == 'ref':
             return '%s = %s(%r, reverse=%r)' % (n, 'Required' if a['required'] else 'Optional', t, a['reverse'])
@@ -179,6 +187,22 @@ class Env(object):
     pass
 
 
+def faulty_connection_class():
+    """sqlite3 connection whose COMMIT can be made to fail like 'database is locked' (the transaction stays open and
+    is rolled back by whoever handles the error)"""
+    class Conn(sqlite3.Connection):
+        fail_commit = False
+
+        def commit(self):
+            if type(self).fail_commit:
+                raise sqlite3.OperationalError('database is locked')
+            return sqlite3.Connection.commit(self)
+    return Conn
+
+
+AUX_ROWS = [(1, 10), (2, 20), (3, 30)]
+
+
 def build_env(diagram, path):
     import pony.orm as orm
     d = norm_diagram(diagram)
@@ -189,12 +213,30 @@ def build_env(diagram, path):
     if os.path.exists(path):
         os.remove(path)
     db = orm.Database()
-    ns = {'db': db, 'PrimaryKey': orm.PrimaryKey, 'Required': orm.Required, 'Optional': orm.Optional, 'Set': orm.Set}
+    ns = {'db': db, 'PrimaryKey': orm.PrimaryKey, 'Required': orm.Required, 'Optional': orm.Optional, 'Set': orm.Set,
+          'Json': orm.Json, 'IntArray': orm.IntArray}
     env.source = entity_source(d)
     exec(env.source, ns)
-    db.bind('sqlite', path, create_db=True)
+    env.conn_cls = faulty_connection_class()
+    db.bind('sqlite', path, create_db=True, factory=env.conn_cls)
     db.generate_mapping(create_tables=True)
     env.db = db
+    # a second, independent database (entity X) for sessions that span two databases
+    env.aux_path = path + '.aux'
+    if os.path.exists(env.aux_path):
+        os.remove(env.aux_path)
+    env.aux_conn_cls = faulty_connection_class()
+    adb = orm.Database()
+    ans = {'db': adb, 'PrimaryKey': orm.PrimaryKey, 'Required': orm.Required}
+    exec('class X(db.Entity):\n    id = PrimaryKey(int)\n    val = Required(int)\n', ans)
+    adb.bind('sqlite', env.aux_path, create_db=True, factory=env.aux_conn_cls)
+    adb.generate_mapping(create_tables=True)
+    env.aux_db = adb
+    env.X = ans['X']
+    con = sqlite3.connect(env.aux_path)
+    con.executemany('insert into "%s" values (?, ?)' % env.X._table_, AUX_ROWS)
+    con.commit()
+    con.close()
     env.ents = {e: ns[e] for e in env.meta}
     if d['inherit']:
         env.ents['C2'] = ns['C2']
@@ -222,20 +264,23 @@ def build_env(diagram, path):
 
 
 def close_env(env):
-    try:
-        env.db.disconnect()
-    except Exception:
-        pass
-    try:
-        from pony.orm.core import local
-        local.db2cache.pop(env.db, None)
-    except Exception:
-        pass
-    for suffix in ('', '-journal', '-wal', '-shm'):
+    env.conn_cls.fail_commit = env.aux_conn_cls.fail_commit = False
+    for db in (env.db, env.aux_db):
         try:
-            os.remove(env.path + suffix)
-        except OSError:
+            db.disconnect()
+        except Exception:
             pass
+        try:
+            from pony.orm.core import local
+            local.db2cache.pop(db, None)
+        except Exception:
+            pass
+    for path in (env.path, env.aux_path):
+        for suffix in ('', '-journal', '-wal', '-shm'):
+            try:
+                os.remove(path + suffix)
+            except OSError:
+                pass
 
 
 def _raw(env):
@@ -244,9 +289,20 @@ def _raw(env):
 
 
 def dump_text(env):
-    con = _raw(env)
+    out = []
+    for path in (env.path, env.aux_path):
+        con = sqlite3.connect(path)
+        try:
+            out.append('\n'.join(con.iterdump()))
+        finally:
+            con.close()
+    return '\n-- second database\n'.join(out)
+
+
+def aux_state(env):
+    con = sqlite3.connect(env.aux_path)
     try:
-        return '\n'.join(con.iterdump())
+        return dict(con.execute('select id, val from "%s"' % env.X._table_).fetchall())
     finally:
         con.close()
 
@@ -256,6 +312,8 @@ def _conv(t, v):
         return None
     if t == 'bool':
         return bool(v)
+    if t in JSON_TYPES:
+        return json.loads(v)
     return v
 
 
@@ -370,7 +428,7 @@ def load_data(env, data):
                     if not (a['m2m'] and e == 'C'):
                         continue
                     want = frozenset(_pkval(t) for t in want)
-                elif isinstance(want, list):
+                elif isinstance(want, list) and a['type'] not in JSON_TYPES:
                     want = tuple(want)
                 if got[n] != want:
                     raise HarnessError('raw state %s[%r].%s = %r, data says %r' % (e, pk, n, got[n], want))
@@ -398,6 +456,68 @@ def restore_data(env):
         con.commit()
     finally:
         con.close()
+    con = sqlite3.connect(env.aux_path)
+    try:
+        con.execute('PRAGMA synchronous = OFF')
+        con.execute('delete from "%s"' % env.X._table_)
+        con.executemany('insert into "%s" values (?, ?)' % env.X._table_, AUX_ROWS)
+        con.commit()
+    finally:
+        con.close()
+
+
+# ------------------------------------------------------------------------------------------------
+# in-place changes of Json / array values: [kind, ...] applied to a plain python value (model) or to Pony's
+# tracked container (harness)
+# ------------------------------------------------------------------------------------------------
+
+def do_mut(val, mut):
+    """apply the mutation to the container itself; raises LookupError/TypeError/AttributeError when it does not fit"""
+    k = mut[0]
+    if k == 'setitem':
+        val[mut[1]] = mut[2]
+    elif k == 'delitem':
+        del val[mut[1]]
+    elif k == 'nested_append':
+        val[mut[1]].append(mut[2])
+    elif k == 'update':
+        val.update(mut[1])
+    elif k == 'pop':
+        val.pop(mut[1])
+    elif k == 'clear':
+        val.clear()
+    elif k == 'append':
+        val.append(mut[1])
+    elif k == 'extend':
+        val.extend(mut[1])
+    elif k == 'setidx':
+        val[mut[1]] = mut[2]
+    elif k == 'pop_last':
+        val.pop()
+    else:
+        raise HarnessError('unknown mutation %r' % (mut,))
+
+
+def mut_fits(val, mut, t):
+    """the mutation is meaningful for this plain value (so that only Pony's liveness check can refuse it)"""
+    k = mut[0]
+    if t == 'json':
+        if not isinstance(val, dict) or k not in ('setitem', 'delitem', 'nested_append', 'update', 'pop', 'clear'):
+            return False
+        if k in ('delitem', 'pop'):
+            return mut[1] in val
+        if k == 'nested_append':
+            return isinstance(val.get(mut[1]), list)
+        return True
+    if t == 'intarray':
+        if not isinstance(val, list) or k not in ('append', 'extend', 'setidx', 'pop_last'):
+            return False
+        if k == 'setidx':
+            return 0 <= mut[1] < len(val)
+        if k == 'pop_last':
+            return len(val) > 0
+        return True
+    return False
 
 
 # ------------------------------------------------------------------------------------------------
@@ -407,7 +527,7 @@ def restore_data(env):
 L, U, Q = 'L', 'U', '?'      # certainly loaded / certainly not loaded / unknown
 
 READ_ACTIONS = ('get', 'query_all', 'ref', 'members', 'read', 'loadattr', 'loadobj', 'contains', 'count')
-WRITE_ACTIONS = ('create', 'assign', 'add', 'remove', 'delete', 'flush', 'commit')
+WRITE_ACTIONS = ('create', 'assign', 'mutate', 'add', 'remove', 'delete', 'flush', 'commit')
 
 
 class Model(object):
@@ -418,7 +538,9 @@ class Model(object):
         for e in self.meta:
             self.pending[e] = {}
             for row in data.get(e, []):
-                r = {k: (_pkval(v) if isinstance(v, list) and k != 'tags' else v) for k, v in row.items()}
+                jnames = set(a['name'] for a in self.meta[e] if a['type'] in JSON_TYPES)
+                r = {k: (copy.deepcopy(v) if k in jnames else _pkval(v) if isinstance(v, list) and k != 'tags' else v)
+                     for k, v in row.items()}
                 if 'tags' in r:
                     r['tags'] = set(_pkval(t) for t in r['tags'])
                 self.pending[e][row_pk(self.meta, e, r)] = r
@@ -429,6 +551,9 @@ class Model(object):
         self.phase2 = False
         self.only_creates = True   # the session never needed the database (no connection was opened)
         self.unsaved = set()       # objects with something to save at the next flush
+        self.uncertain_end = False
+        self.aux = {}              # pk -> description of the objects of the second database (entity X)
+        self.aux_pending = {1: 10, 2: 20, 3: 30}
         self.ncreated = 0
 
     # -- helpers
@@ -456,7 +581,7 @@ class Model(object):
                     st[a['name']] = Q
         o = {'state': st, 'assigned': {}, 'created': False, 'deleted': False, 'deleted_ok': False,
              'dirty': False, 'dirty_sure': False, 'cls': cls or e, 'committed_create': False, 'captured': False,
-             'cls_known': bool(loaded)}
+             'cls_known': bool(loaded), 'held': set()}
         self.mem[h] = o
         if loaded:
             self.stubs_for(h)
@@ -665,6 +790,8 @@ class Model(object):
             o = self.mem[h]
             if a['kind'] == 'coll' or (a['sub'] and not self.sub_ok(h)):
                 return False
+            if a['type'] in JSON_TYPES:
+                o['held'].add(a['name'])       # the harness keeps the container it read
             st = o['state'][a['name']]
             if a['kind'] in ('ref', 'o2orev') and self.diagram['inherit'] and a['type'] == 'C' \
                     and not (o['created'] and o.get('unsaved_sure')):
@@ -812,7 +939,7 @@ class Model(object):
                     if a['reverse'] == 'badge':
                         return False
                     v = t[1]
-            elif v is None and (a['required'] or a['type'] == 'str'):
+            elif v is None and (a['required'] or a['type'] == 'str' or a['type'] in JSON_TYPES):
                 return False
             self.enter_phase2()
             if not o['created']:
@@ -833,6 +960,21 @@ class Model(object):
             self.unsaved.add(h)
             self.modified = self.any_write = True
             return True
+        if k == 'mutate':
+            h = hk(act[1])
+            if not self.alive(h):
+                return False
+            a = get_attr(meta, h[0], act[2])
+            row = self.row(h)
+            if a['type'] not in JSON_TYPES or row is None or (a['sub'] and not self.sub_ok(h)):
+                return False
+            cur = copy.deepcopy(row.get(a['name']))
+            if cur is None or not mut_fits(cur, act[3], a['type']):
+                return False
+            if not self.apply(['read', act[1], act[2]]):      # the value is read (loaded if need be) ...
+                return False
+            do_mut(cur, act[3])                                # ... and changed in place: an assignment
+            return self.apply(['assign', act[1], act[2], cur])
         if k in ('add', 'remove'):
             h = hk(act[1])
             t = hk(act[3])
@@ -921,6 +1063,28 @@ class Model(object):
             return True
         raise HarnessError('unknown action %r' % (act,))
 
+    # -- the second database: entity X(id, val); objects keyed by pk
+    def apply_aux(self, act):
+        k = act[0]
+        if k == 'get':
+            if act[1] not in self.aux_pending:
+                return False
+            self.aux.setdefault(act[1], {'assigned': [], 'created': False})
+            return True
+        if k == 'assign':
+            if act[1] not in self.aux:
+                return False
+            self.aux[act[1]]['assigned'].append(act[2])
+            self.aux_pending[act[1]] = act[2]
+            return True
+        if k == 'create':
+            if act[1] in self.aux_pending or act[1] in self.aux:
+                return False
+            self.aux[act[1]] = {'assigned': [act[2]], 'created': True}
+            self.aux_pending[act[1]] = act[2]
+            return True
+        raise HarnessError('unknown aux action %r' % (act,))
+
     def cascade_from(self, h):
         """objects that a delete of h may delete in cascade get deleted_ok"""
         if h[0] == 'P':
@@ -955,6 +1119,11 @@ class Model(object):
                 o['dirty'] = o['dirty_sure'] = False
             self.on_commit()
             self.rolled_back = False
+        elif end == 'commit_fault':
+            # the final commit may fail on one of the databases: each database ends up committed or rolled back
+            # (read from the database itself); everything that holds for a rolled-back session is accepted
+            self.rolled_back = True
+            self.uncertain_end = True
         else:
             self.rolled_back = True
 
@@ -1004,11 +1173,27 @@ def pony_rejections():
             NotImplementedError)    # e.g. a modified stub of the root class turns out to be of a subclass when loaded
 
 
-def run_session(env, case, objs):
-    """runs the prep script inside a db_session and ends it as requested; fills objs (hkey -> object)"""
+def run_session(env, case, objs, held=None):
+    """runs the prep script inside a db_session and ends it as requested; fills objs (hkey -> object) and
+    held ((hkey, attr) -> the Json/array container read in the session)"""
     import pony.orm as orm
     ents = env.ents
     prep, end, strict = case['prep'], case['end'], case['strict']
+    if held is None:
+        held = {}
+    aux = case.get('aux') or None
+    json_attrs = set((e, a['name']) for e in env.meta for a in env.meta[e] if a['type'] in JSON_TYPES)
+
+    def run_aux():
+        for act in aux['script']:
+            if act[0] == 'get':
+                objs[('X', act[1])] = env.X[act[1]]
+            elif act[0] == 'assign':
+                objs[('X', act[1])].val = act[2]
+            elif act[0] == 'create':
+                objs[('X', act[1])] = env.X(id=act[1], val=act[2])
+            else:
+                raise HarnessError('unknown aux action %r' % (act,))
 
     def run_actions(acts):
         for act in acts:
@@ -1028,7 +1213,13 @@ def run_session(env, case, objs):
                 for o in list(getattr(objs[hk(act[1])], act[2])):
                     objs[obj_key(o)] = o
             elif k == 'read':
-                getattr(objs[hk(act[1])], act[2])
+                v = getattr(objs[hk(act[1])], act[2])
+                if (act[1][0], act[2]) in json_attrs:
+                    held[(hk(act[1]), act[2])] = v
+            elif k == 'mutate':
+                v = getattr(objs[hk(act[1])], act[2])
+                held[(hk(act[1]), act[2])] = v
+                do_mut(v, act[3])
             elif k == 'loadattr':
                 objs[hk(act[1])].load(act[2])
             elif k == 'loadobj':
@@ -1068,6 +1259,9 @@ def run_session(env, case, objs):
                 raise HarnessError('unknown action %r' % (act,))
 
     def finish_body():
+        if end == 'commit_fault':
+            # from now on COMMIT fails on the chosen database (the session is left normally, its commit fails)
+            (env.aux_conn_cls if case.get('fault') == 'aux' else env.conn_cls).fail_commit = True
         if end == 'rollback':
             orm.rollback()
         elif end == 'exception':
@@ -1077,7 +1271,11 @@ def run_session(env, case, objs):
             raise Boom()
 
     def body():
+        if aux and aux.get('order') == 'first':
+            run_aux()
         run_actions(prep)
+        if aux and aux.get('order') != 'first':
+            run_aux()
         finish_body()
 
     form = case.get('form', 'with')
@@ -1088,9 +1286,13 @@ def run_session(env, case, objs):
 
     def genbody():
         # a @db_session generator: suspended once after the read-only prefix of the script ...
+        if aux and aux.get('order') == 'first':
+            run_aux()
         run_actions(prep[:nread])
         yield 'mid'
         run_actions(prep[nread:])
+        if aux and aux.get('order') != 'first':
+            run_aux()
         if gen_end == 'exhaust':
             finish_body()       # ... and then run to its end
             return
@@ -1151,6 +1353,9 @@ def run_session(env, case, objs):
     except Boom:
         if not expect_boom:
             raise HarnessError('Boom out of a session that should not raise')
+    except (orm.core.CommitException, orm.core.PartialCommitException) as e:
+        if end != 'commit_fault':
+            raise InSessionError('%s: %s' % (type(e).__name__, e))
     except rej as e:
         raise Rejected('%s: %s' % (type(e).__name__, e))
     except HarnessError:
@@ -1163,6 +1368,8 @@ def run_session(env, case, objs):
     else:
         if expect_boom:
             raise HarnessError('the exception did not come out of the db_session')
+    finally:
+        env.conn_cls.fail_commit = env.aux_conn_cls.fail_commit = False
 
 
 def effective_script(case):
@@ -1178,6 +1385,7 @@ def effective_script(case):
 # ------------------------------------------------------------------------------------------------
 
 _REGISTRY = {}      # id(python object) -> hkey of the captured leftover objects of the current case
+_HELD = {}          # (hkey, attr) -> Json / array container the in-session script read (and kept) of the current case
 
 
 def norm_value(v):
@@ -1272,11 +1480,45 @@ def exec_op(env, objs, op):
             return {'ok': sorted((norm_value(x.get_pk()) for x in res), key=repr)}
         except Exception as e:
             return classify_exc(e)
+    if k.startswith('x_'):
+        obj = objs.get(('X', op[1]))
+        if obj is None:
+            raise HarnessError('op %r refers to an object that was never captured' % (op,))
+        try:
+            if k == 'x_read':
+                return {'ok': norm_value(obj.val)}
+            if k == 'x_pk':
+                return {'ok': norm_value(obj.get_pk())}
+            if k == 'x_assign':
+                obj.val = op[2]
+                return {'ok': None}
+            if k == 'x_set':
+                return {'ok': norm_value(obj.set(val=op[2]))}
+            if k == 'x_delete':
+                return {'ok': norm_value(obj.delete())}
+            if k == 'x_load':
+                return {'ok': norm_value(obj.load())}
+            if k == 'x_flush':
+                return {'ok': norm_value(obj.flush())}
+        except Exception as e:
+            return classify_exc(e)
+        raise HarnessError('unknown op %r' % (op,))
     obj = objs.get(hk(op[1]))
     if obj is None:
         raise HarnessError('op %r refers to an object that was never captured' % (op,))
     args = [resolve(objs, a) for a in op[2:]]
     try:
+        if k == 'mutate':
+            if len(op) > 4 and op[4] == 'held':
+                val = _HELD.get((hk(op[1]), op[2]))
+                if val is None:
+                    raise HarnessError('op %r: the script never held that value' % (op,))
+            else:
+                val = getattr(obj, op[2])
+            if val is None:
+                return {'skip': True}
+            do_mut(val, op[3])
+            return {'ok': None}
         if k == 'read':
             return {'ok': norm_value(getattr(obj, args[0]))}
         if k == 'read2':
@@ -1374,7 +1616,7 @@ def exec_op(env, objs, op):
 # the oracle
 # ------------------------------------------------------------------------------------------------
 
-WRITE_OPS = ('assign', 'set', 'c_add', 'c_remove', 'c_clear', 'c_assign', 'c_iadd', 'c_isub', 'delete')
+WRITE_OPS = ('mutate', 'x_assign', 'x_set', 'x_delete', 'assign', 'set', 'c_add', 'c_remove', 'c_clear', 'c_assign', 'c_iadd', 'c_isub', 'delete')
 COLL_READ_OPS = ('c_iter', 'c_len', 'c_bool', 'c_count', 'c_empty', 'c_copy', 'c_in')
 
 
@@ -1382,7 +1624,9 @@ class Oracle(object):
     """expectations for one finished session: built from the model, the raw database content at the start
     and at the end of the session, and the strict flag"""
 
-    def __init__(self, model, db_start, db_end, strict):
+    def __init__(self, model, db_start, db_end, strict, aux_start=None, aux_end=None):
+        self.x0 = aux_start or {}
+        self.x1 = aux_end or {}
         self.m = model
         self.meta = model.meta
         self.s0 = db_start
@@ -1528,6 +1772,12 @@ class Oracle(object):
         return '%s %s; expected %s' % (json.dumps(op, default=repr), got, want)
 
     def j_write(self, op, out):
+        if op[0].startswith('x_'):
+            if 'ok' in out:
+                return self._fmt(op, out, 'DatabaseSessionIsOver (a change of a leftover object of the second database)')
+            if not self._exc_ok(out, ['DSIO']):
+                return self._fmt(op, out, 'DSIO')
+            return None
         h = hk(op[1])
         flags = self.raise_flags(h)
         if 'ok' in out:
@@ -1535,6 +1785,32 @@ class Oracle(object):
         if not self._exc_ok(out, flags):
             return self._fmt(op, out, ' or '.join(flags))
         return None
+
+    def j_x_read(self, op, out):
+        o = self.m.aux[op[1]]
+        cands = [c[op[1]] for c in (self.x1, self.x0) if op[1] in c] + list(o['assigned'])
+        if 'exc' in out:
+            if not self.strict and not o['created']:
+                return self._fmt(op, out, 'the loaded value (one of %r)' % (cands,))
+            if not self._exc_ok(out, ['DSIO']):
+                return self._fmt(op, out, 'the value or DSIO')
+            return None
+        if self.strict:
+            return self._fmt(op, out, 'DatabaseSessionIsOver (strict session)')
+        if out['ok'] not in cands:
+            return self._fmt(op, out, 'one of %r' % (cands,))
+        return None
+
+    def j_x_pk(self, op, out):
+        if out.get('ok') != op[1]:
+            return self._fmt(op, out, 'the primary key %r' % (op[1],))
+        return None
+
+    def j_x_load(self, op, out):
+        if 'exc' in out and not self._exc_ok(out, ['DSIO']):
+            return self._fmt(op, out, 'nothing or DSIO')
+        return None
+    j_x_flush = j_x_load
 
     def j_read(self, op, out):
         h = hk(op[1])
@@ -1766,7 +2042,8 @@ class Oracle(object):
         h = hk(op[1])
         o = self.m.mem[h]
         # a new object that was deleted again (directly or in cascade) is 'cancelled': nothing left to save
-        must = o.get('dirty_sure') and self.rb and not o['deleted_ok'] and not (o['created'] and o['deleted'])
+        must = o.get('dirty_sure') and self.rb and not o['deleted_ok'] and not (o['created'] and o['deleted']) \
+            and not self.m.uncertain_end
         if 'ok' in out:
             if must:
                 return self._fmt(op, out, 'DatabaseSessionIsOver (the object has unsaved changes)')
@@ -1926,6 +2203,8 @@ def sweep_ops(model):
                 ops.append(['c_iter', jk(h), a['name']])
             else:
                 ops.append(['read', jk(h), a['name']])
+    for pk in sorted(model.aux):
+        ops.append(['x_read', pk])
     return ops
 
 
@@ -1941,16 +2220,23 @@ def prepare(env, case):
     for act in eprep:
         if not model.apply(act):
             raise HarnessError('script step %r is not valid here' % (act,))
+    for act in (case.get('aux') or {}).get('script', []):
+        if not model.apply_aux(act):
+            raise HarnessError('aux script step %r is not valid here' % (act,))
     model.finish(eend)
     s0 = raw_state(env)
+    x0 = aux_state(env)
     objs = {}
-    run_session(env, case, objs)
+    held = {}
+    run_session(env, case, objs, held)
     p = Prepared()
     p.env = env
     p.model = model
     p.objs = objs
     p.dump0 = dump_text(env)
-    p.oracle = Oracle(model, s0, raw_state(env), case['strict'])
+    p.oracle = Oracle(model, s0, raw_state(env), case['strict'], x0, aux_state(env))
+    _HELD.clear()
+    _HELD.update(held)
     for h, o in model.mem.items():
         if o['captured'] and h not in objs:
             raise HarnessError('the model expects %r to be captured by the script, it was not' % (h,))
@@ -1969,6 +2255,7 @@ def finish_check(p):
             pass
         with orm.db_session:
             p.env.db.execute('select 1')
+            p.env.aux_db.execute('select 1')
     except Exception as e:
         return 'a fresh empty db_session after the operations raised %s: %s' % (type(e).__name__, e)
     d1 = dump_text(p.env)
